@@ -8,7 +8,7 @@ from vlib import core, gen
 PROP = "C18"
 META = {
     "technique": "Coq proof: invariant of the read buffer (window = received-but-unconsumed part of the stream) over all sequences of kernel read sizes and commit sizes incl. growth, compaction and shrink; induction over all kernel answers for write; inductive invariant over all schedules of the writing-flag protocol (mutual exclusion, contiguous events); tie: differential execution of the real connEventHandler over socketpairs, callback geometry replayed on the model",
-    "level_text": "C18_read / C18_read_bounds (every configuration, stream, read/commit sequence), C18_write (every message and kernel answer sequence), C18_mutex / C18_contiguous (any number of writers, event sizes, every schedule) are proved in Coq. The model's buffer geometry is compared with the real connEventHandler at every callback of every generated transfer; an independent oracle checks on every callback that the buffer shown is the unconsumed bytes followed by the new ones and that everything written arrives exactly once, in order, events of concurrent writers intact.",
+    "level_text": "C18_read / C18_read_bounds (every configuration, stream, read/commit sequence), C18_on_read_ready (the real onReadReady loop incl. the threshold callback is an instance of those sequences for every kernel that returns 1..count bytes), C18_write (every message and kernel answer sequence), C18_mutex / C18_contiguous (any number of writers, event sizes, every schedule) are proved in Coq. The model's buffer geometry is compared with the real connEventHandler at every callback of every generated transfer; an independent oracle checks on every callback that the buffer shown is the unconsumed bytes followed by the new ones and that everything written arrives exactly once, in order, events of concurrent writers intact.",
     "level_note": "Trusted: coqc kernel; the hand-written model; kernel socket semantics (read returns at most `count` bytes that were written, in order); the read sizes chosen by the kernel are not observable, the replay uses the fact that the geometry depends only on the number of bytes between two callbacks; EAGAIN / partial writes are provoked by small socket buffers but not counted; doWritev is modelled (iovec bookkeeping) but only write is exercised and proved, the session never calls writev; sequential consistency of the writing flag.",
 }
 
